@@ -17,7 +17,9 @@ The proofs live in `Lemmas/FQ*.lean` and reuse the infrastructure of `Props/C06`
 * **Stage 2 — flat**: `C18_query_flat` (`phrase op literal`, `literal op phrase`,
   `phrase op phrase`).
 * **Stage 3 — arbitrary nesting**: `FQ_lex_render`, `FQ_parse_render`, `FQ_eval_rep`,
-  `C18_query_mixed`, `C18_query_mixed_same_value`, `C18_query_mixed_log`, `C18_query_isolated`…
+  `C18_query_mixed`, `C18_query_mixed_same_value`, `C18_query_mixed_log`, `C18_query_mixed_plain`,
+  `C18_query_isolated`, `C18_query_isolated_log`, `C18_query_isolated_perm`,
+  `C18_query_isolated_mixed`.
 
 Definitions (`Lemmas/FQDefs.lean`): `PhraseOK`, `phraseText`, `phraseToks`; `FExpr`, `render`,
 `renderQuery`, `toksF`, `WFF`, `LayoutOKF`; `RepF`; the denotation `evalD` with its value part
@@ -80,14 +82,6 @@ theorem FQ_value_phrase {s : PState} (F : Nat) (W : List Token) (first : List Ch
       Ext s.b.forest.length s.b s'.b) :=
   value_phrase F W first more K ht hw hK h hF
 
-theorem renderQuery_fact (first : List Char) (more : More) (b0 b1 : List Char) :
-    renderQuery (.fact first more) [b0, b1] = b0 ++ phraseText first more ++ b1 := by
-  simp [renderQuery, render, nextBlank]
-
-theorem queryLayout_fact (first : List Char) (more : More) (b0 b1 : List Char) (h0 : Blank b0)
-    (h1 : Blank b1) : QueryLayoutOKF (.fact first more) [b0, b1] :=
-  ⟨h0, trivial, h1⟩
-
 /-- **Parser on a phrase.** For every phrase that can be typed, with any white space before and
 after it, `parseRoot` succeeds and the forest is: blank leaves, ONE tree, blank leaves; the tree
 is a WORD node (one word) or a SENTENCE node (several) and its text is exactly the phrase. -/
@@ -100,8 +94,8 @@ theorem FQ_parse_phrase (first : List Char) (more : More) (b0 b1 : List Char)
   obtain ⟨forest, hparse, Wt, x, Wt', hf, hWt, hWt', hx⟩ :=
     parse_renderF (.fact first more) [b0, b1] hp (queryLayout_fact first more b0 b1 h0 h1)
   rw [renderQuery_fact] at hparse
-  cases hx with
-  | fact hk hc ht => exact ⟨forest, Wt, x, Wt', hparse, hf, hWt, hWt', hk, hc, ht⟩
+  obtain ⟨hk, hc, ht⟩ := repF_fact_inv hx
+  exact ⟨forest, Wt, x, Wt', hparse, hf, hWt, hWt', hk, hc, ht⟩
 
 /-- Tests (labelled as tests): a word after a number is a unit, a word glued to `(` is a function
 name, the words after `to` are a unit; in operand position the same word is a phrase. -/
@@ -113,58 +107,30 @@ example :
     (parseRoot ['p', 'i']).toOption.map (fun f => f.map Tree.kind) = some [.WORD] := by
   decide +kernel
 
-theorem strip_err_inv {r : Except EvalErr Numeric} {k : ErrKind}
-    (h : strip r = .error (.err k 0 0)) : ∃ s t, r = .error (.err k s t) := by
-  cases r with
-  | ok v => cases h
-  | error e =>
-    cases e with
-    | err k' s t =>
-      simp only [strip, stripErr, Except.error.injEq, EvalErr.err.injEq] at h
-      exact ⟨s, t, by rw [h.1]⟩
-    | panic s => cases h
-    | unsupported s => cases h
-
-theorem strip_ok_inv {r : Except EvalErr Numeric} {v : Numeric} (h : strip r = .ok v) :
-    r = .ok v := by
-  cases r with
-  | ok w => exact h
-  | error e => cases h
+/-- What a query consisting of the one phrase `p`, typed after `lead` bytes of white space, must
+answer: the database's entry for `p` as a value (reported when describing), or `missing` /
+`lookupError` spanning exactly the phrase; nothing else is consulted. -/
+def oneLookupAnswer (cfg : Cfg) (p : List Char) (lead : Nat) :
+    List (Except EvalErr Numeric) × List Desc :=
+  match cfg.db p with
+  | .found c => ([.ok { value := c.value, unit := c.unit }],
+      if cfg.describe then [{ phrase := p, description := c.description }] else [])
+  | .nothing => ([.error (.err .missing lead (lead + utf8Len p))], [])
+  | .error => ([.error (.err .lookupError lead (lead + utf8Len p))], [])
 
 /-- **C16 (one lookup, of exactly the phrase — for every phrase and every database).** The query
 text made of a phrase that can be typed (any blank runs between the words, any white space
 around) performs exactly one lookup, of exactly that phrase as typed: the single result is
-`cfg.db phrase` mapped to a value (`found`), `missing` (`nothing`) or `lookupError` (`error`);
-with `describe` the log is the one entry `⟨phrase, description⟩` on success, and nothing is
-reported otherwise. -/
+`cfg.db phrase` mapped to a value (`found`), `missing` (`nothing`) or `lookupError` (`error`),
+the error spanning exactly the bytes of the phrase; with `describe` the log is the one entry
+`⟨phrase, description⟩` on success, and nothing is reported otherwise. -/
 theorem C16_phrase (cfg : Cfg) (first : List Char) (more : More) (b0 b1 : List Char)
     (hp : PhraseOK first more) (h0 : Blank b0) (h1 : Blank b1) :
-    match cfg.db (phraseText first more) with
-    | .found c => Eval.query cfg (b0 ++ phraseText first more ++ b1) =
-        .ok ([.ok { value := c.value, unit := c.unit }],
-          if cfg.describe then [{ phrase := phraseText first more, description := c.description }]
-          else [])
-    | .nothing => ∃ s t, Eval.query cfg (b0 ++ phraseText first more ++ b1) =
-        .ok ([.error (.err .missing s t)], [])
-    | .error => ∃ s t, Eval.query cfg (b0 ++ phraseText first more ++ b1) =
-        .ok ([.error (.err .lookupError s t)], []) := by
-  obtain ⟨r, hr, hq⟩ := query_renderF cfg (.fact first more) [b0, b1] hp
-    (queryLayout_fact first more b0 b1 h0 h1) trivial
-  rw [renderQuery_fact] at hq
-  simp only [denote, lookupV, logD, lookupLog] at hr hq
-  cases hdb : cfg.db (phraseText first more) with
-  | found c =>
-    rw [hdb] at hr hq
-    simp only at hr hq ⊢
-    rw [hq, strip_ok_inv hr]
-  | nothing =>
-    rw [hdb] at hr hq
-    obtain ⟨s, t, rfl⟩ := strip_err_inv hr
-    exact ⟨s, t, by rw [hq]; simp⟩
-  | error =>
-    rw [hdb] at hr hq
-    obtain ⟨s, t, rfl⟩ := strip_err_inv hr
-    exact ⟨s, t, by rw [hq]; simp⟩
+    Eval.query cfg (b0 ++ phraseText first more ++ b1) =
+      .ok (oneLookupAnswer cfg (phraseText first more) (utf8Len b0)) := by
+  rw [query_phrase_exact cfg first more b0 b1 hp h0 h1]
+  unfold oneLookupAnswer
+  cases cfg.db (phraseText first more) <;> rfl
 
 /-- **C16 (every shipped constant in scope, against ANY database).** `C16_one_lookup` checks one
 particular database per constant by running the model; here: for every shipped constant whose
@@ -174,39 +140,30 @@ index as database the answer is whatever that index returns for the phrase, full
 (value, unit, description) when it is `found`. -/
 theorem C16_phrase_shipped (cfg : Cfg) (r : Generated.FactRow) (hr : r ∈ Generated.facts)
     (ht : Index.typeable r = true) :
-    match cfg.db (Index.phraseOf r) with
-    | .found c => Eval.query cfg (Index.phraseOf r) =
-        .ok ([.ok { value := c.value, unit := c.unit }],
-          if cfg.describe then [{ phrase := Index.phraseOf r, description := c.description }]
-          else [])
-    | .nothing => ∃ s t, Eval.query cfg (Index.phraseOf r) = .ok ([.error (.err .missing s t)], [])
-    | .error => ∃ s t, Eval.query cfg (Index.phraseOf r) =
-        .ok ([.error (.err .lookupError s t)], []) := by
+    Eval.query cfg (Index.phraseOf r) = .ok (oneLookupAnswer cfg (Index.phraseOf r) 0) := by
   obtain ⟨f, rest, _, hp, htxt⟩ := shipped_phraseOK r hr ht
   have := C16_phrase cfg f (singleBlanks rest) [] [] hp (fun _ h => nomatch h) (fun _ h => nomatch h)
-  simpa only [htxt, List.nil_append, List.append_nil] using this
+  simpa only [htxt, List.nil_append, List.append_nil, utf8Len] using this
 
 /-- **C16 (with the words permuted).** The words of a shipped constant in scope, typed in any
 order `ws`, are again one phrase: one lookup of exactly `joinWords ws` (whose index terms are
 those of the constant, `C16_query_terms_perm`). -/
 theorem C16_phrase_permuted (cfg : Cfg) (r : Generated.FactRow) (hr : r ∈ Generated.facts)
     (ht : Index.typeable r = true) (ws : List (List Char)) (hperm : ws.Perm r.tokens) :
-    match cfg.db (Index.joinWords ws) with
-    | .found c => Eval.query cfg (Index.joinWords ws) =
-        .ok ([.ok { value := c.value, unit := c.unit }],
-          if cfg.describe then [{ phrase := Index.joinWords ws, description := c.description }]
-          else [])
-    | .nothing => ∃ s t, Eval.query cfg (Index.joinWords ws) = .ok ([.error (.err .missing s t)], [])
-    | .error => ∃ s t, Eval.query cfg (Index.joinWords ws) =
-        .ok ([.error (.err .lookupError s t)], []) := by
+    Eval.query cfg (Index.joinWords ws) = .ok (oneLookupAnswer cfg (Index.joinWords ws) 0) := by
   obtain ⟨f, rest, _, hp, htxt⟩ := shipped_perm_phraseOK r hr ht ws hperm
   have := C16_phrase cfg f (singleBlanks rest) [] [] hp (fun _ h => nomatch h) (fun _ h => nomatch h)
-  simpa only [htxt, List.nil_append, List.append_nil] using this
+  simpa only [htxt, List.nil_append, List.append_nil, utf8Len] using this
+
+/-- The scope of the two theorems above, in numbers (as `C16_scope`): 777 of the 878 shipped
+constants. -/
+theorem C16_phrase_scope : (Generated.facts.filter Index.typeable).length = 777 := by
+  decide +kernel
 
 /-- Non-vacuity of stage 1: the first shipped constant is in scope; `mercury  orbit 2` (two
 blanks, a number word) is a phrase that can be typed. -/
-example : (Generated.facts0.head?).map (fun r => (decide (r ∈ Generated.facts0), Index.typeable r))
-    = some (true, true) := by decide +kernel
+example : ∃ r ∈ Generated.facts, Index.typeable r = true :=
+  ⟨Generated.facts[0]'(by decide +kernel), List.getElem_mem _, by decide +kernel⟩
 
 example : PhraseOK ['m', 'e', 'r', 'c', 'u', 'r', 'y'] [([' ', ' '], ['o', 'r', 'b', 'i', 't']), ([' '], ['2'])] := by
   refine ⟨wordLit_of_check (by decide +kernel), ?_⟩
@@ -281,10 +238,12 @@ theorem C18_query_mixed_same_value (cfg : Cfg) (e : FExpr) (ws : Layout) (hwf : 
       Eval.query { cfg with describe := false } (renderQuery e ws) = .ok ([r], []) := by
   obtain ⟨r, hr, hq⟩ := query_renderF { cfg with describe := true } e ws hwf hl hlit
   obtain ⟨r', _, hq'⟩ := query_renderF { cfg with describe := false } e ws hwf hl hlit
-  have hsame := Props.C18.C18_same_value_query cfg (renderQuery e ws)
-  rw [hq, hq'] at hsame
-  simp only [Except.map, Except.ok.injEq, List.cons.injEq, and_true] at hsame
-  subst hsame
+  have h1 := queryFrom_results cfg true (renderQuery e ws) []
+  have h2 := queryFrom_results cfg false (renderQuery e ws) []
+  rw [queryFrom_nil] at h1 h2
+  rw [← h2, hq, hq'] at h1
+  simp only [Except.map, Except.ok.injEq, List.cons.injEq, and_true] at h1
+  subst h1
   rw [denote_describe] at hr
   rw [logD_describe] at hq
   exact ⟨r, hr, by simpa using hq, by simpa using hq'⟩
@@ -301,6 +260,20 @@ theorem C18_query_mixed_log (cfg : Cfg) (e : FExpr) :
       logD cfg e = (order e).flatMap (lookupLog cfg.db)) ∧
     (∀ x ∈ logD cfg e, ∃ c, cfg.db x.phrase = .found c ∧ x.description = c.description) :=
   ⟨fun v h => logD_success cfg e v h, logD_sound cfg e⟩
+
+/-- **C18 (plain constants: exact rational arithmetic).** When every looked-up constant is a
+plain number (empty unit) and the independent specification `Spec.Arith.applyBin` gives the
+expression the value `v` (`plainVal`: exact rationals, `^` with integer exponents, no division by
+zero), the query text answers exactly `v` as a plain number. (For constants with units the
+operations are `Eval.add` / `Eval.mulDiv` / `Eval.pow`, whose meaning is the subject of C02–C04
+and C13.) -/
+theorem C18_query_mixed_plain (cfg : Cfg) (e : FExpr) (ws : Layout) (v : Rat) (hwf : WFF e)
+    (hl : QueryLayoutOKF e ws) (hlit : LitsOKF e) (hv : plainVal cfg.db e = some v) :
+    Eval.query cfg (renderQuery e ws) =
+      .ok ([.ok (plain v)], if cfg.describe then logD cfg e else []) := by
+  obtain ⟨r, hr, hq⟩ := query_renderF cfg e ws hwf hl hlit
+  rw [denote_plain cfg e v hv] at hr
+  rw [hq, strip_ok_inv hr]
 
 /-! ## Stage 2 — the flat cases, spelled out -/
 
@@ -406,7 +379,7 @@ open Demo
 
 /-- The example meets every hypothesis of `C18_query_mixed` (layout: no blank before `*`, two
 after it, none at the ends). -/
-theorem ex_in_scope :
+theorem FQ_ex_in_scope :
     String.ofList (renderQuery ex [[], [], [' ', ' ']]) = "pi*  2 + e - speed of  light " ∧
     WFF ex ∧ QueryLayoutOKF ex [[], [], [' ', ' ']] ∧ LitsOKF ex := by
   have hw : ∀ w : List Char, wordLitCheck w = true → WordLit w := fun _ h => wordLit_of_check h
@@ -426,17 +399,46 @@ theorem ex_in_scope :
 
 /-- Its denotation, log and evaluation order: `(3 * 2 + 2) - 5 = 3`; along the run `… + e - sol`
 of equal priority the order is `e`, `pi` (inside the product the right operand `2` first), `sol`. -/
-theorem ex_denotation :
+theorem FQ_ex_denotation :
     (denote cfg0 ex).toOption.map (fun n => (n.value, n.unit)) = some (3, []) ∧
     (logD cfg0 ex).map (fun x => String.ofList x.phrase) = ["e", "pi", "speed of  light"] ∧
     (order ex).map String.ofList = ["e", "pi", "speed of  light"] := by
   decide +kernel
 
 /-- Test (labelled as a test): the model's whole pipeline on this text agrees. -/
-example : (Eval.query cfg0 (renderQuery ex [[], [], [' ', ' ']])).toOption.map
-    (fun r => (r.1.map (fun x => x.toOption.map (fun n => (n.value, n.unit))),
-      r.2.map (fun x => String.ofList x.phrase))) =
-    some ([some (3, [])], ["e", "pi", "speed of  light"]) := by decide +kernel
+example :
+    (Eval.query cfg0 (renderQuery ex [[], [], [' ', ' ']])).toOption.map
+      (fun r => r.1.map (fun x => x.toOption.map (fun n => (n.value, n.unit)))) =
+        some [some (3, [])] ∧
+    (Eval.query cfg0 (renderQuery ex [[], [], [' ', ' ']])).toOption.map
+      (fun r => r.2.map (fun x => String.ofList x.phrase)) =
+        some ["e", "pi", "speed of  light"] := by decide +kernel
+
+/-- Non-vacuity of `C18_query_mixed_plain`: all constants of `db0` are plain and the specification
+gives `3`. -/
+example : plainVal cfg0.db ex = some 3 := by decide +kernel
+
+/-- Non-vacuity of `C18_query_flat`: `pi` and `e` are phrases known to `db0`, `2` is a literal in
+scope; every layout hypothesis holds for the default layout. -/
+example : PhraseOK ['p', 'i'] [] ∧ PhraseOK ['e'] [] ∧ LitOK ⟨none, [2], none, none, false⟩ ∧
+    cfg0.db (phraseText ['p', 'i'] []) = .found ⟨3, [], ['r', 'a', 't', 'i', 'o']⟩ ∧
+    cfg0.db (phraseText ['e'] []) = .found ⟨2, [], ['E', 'u', 'l', 'e', 'r']⟩ ∧
+    QueryLayoutOKF (.bin .add (.fact ['p', 'i'] []) (.fact ['e'] [])) [] :=
+  ⟨⟨wordLit_of_check (by decide +kernel), fun _ h => nomatch h⟩,
+   ⟨wordLit_of_check (by decide +kernel), fun _ h => nomatch h⟩,
+   by simp [LitOK, Literal.WF, fracDigits, Number.u32Max], by simp [cfg0, db0, phraseText, moreText],
+   by simp [cfg0, db0, phraseText, moreText], FQ_default_layout_ok _⟩
+
+/-- Test (labelled as a test) of `C16_phrase` with white space around and inside the phrase: the
+model's pipeline answers `oneLookupAnswer`; an unknown phrase is `missing` with the span of the
+phrase (bytes 1 to 3 of ` pi `). -/
+example :
+    (Eval.query cfg0 [' ', 's', 'p', 'e', 'e', 'd', ' ', 'o', 'f', ' ', ' ', 'l', 'i', 'g', 'h', 't']).toOption.map
+      (fun r => (r.1.map (fun x => x.toOption.map (·.value)), r.2.map (fun x => String.ofList x.description)))
+      = some ([some 5], ["c"]) ∧
+    (oneLookupAnswer { db := fun _ => .nothing } ['p', 'i'] 1).1.map
+      (fun x => match x with | .error (.err k s t) => some (k, s, t) | _ => none) =
+      [some (.missing, 1, 3)] := by decide +kernel
 
 /-- **The layout hypothesis is needed**: `pi +e5` — no blank after the binary `+` in front of a
 phrase beginning with `e` — is ONE phrase `pi +e5` for the tool (`+e5` lexes as a number), not
